@@ -62,6 +62,7 @@ type Reader struct {
 	buf   []byte
 	rd    io.Reader
 	err   error
+	rderr error // error returned by rd together with data; becomes err once the data is consumed
 	r     int
 	w     int
 	slice sliceAlloc
@@ -88,18 +89,27 @@ func (b *Reader) fill() error {
 	if b.err != nil {
 		return b.err
 	}
+	if b.rderr != nil {
+		b.err = b.rderr
+		return b.err
+	}
 	if b.r > 0 {
 		n := copy(b.buf, b.buf[b.r:b.w])
 		b.r = 0
 		b.w = n
 	}
 	n, err := b.rd.Read(b.buf[b.w:])
+	if n > 0 {
+		// a read may return data together with an error (io.Reader): keep
+		// the data, report the error when more is asked for.
+		b.w += n
+		b.rderr = err
+		return nil
+	}
 	if err != nil {
 		b.err = err
-	} else if n == 0 {
-		b.err = io.ErrNoProgress
 	} else {
-		b.w += n
+		b.err = io.ErrNoProgress
 	}
 	return b.err
 }
@@ -113,6 +123,10 @@ func (b *Reader) Read(p []byte) (int, error) {
 		return 0, b.err
 	}
 	if b.buffered() == 0 {
+		if b.rderr != nil {
+			b.err = b.rderr
+			return 0, b.err
+		}
 		if len(p) >= len(b.buf) {
 			n, err := b.rd.Read(p)
 			if err != nil {
